@@ -383,3 +383,15 @@ Proof.
       repeat match goal with |- context [if ?c then _ else _] => destruct c end; simp_state; try assumption.
     all: cbn [lookup]; destruct (Z.eqb_spec a b); [congruence|assumption].
 Qed.
+
+(* pop mode: the hand-over record made when a bar gets its pop priority holds the priority it had before *)
+Theorem flush_pop_handover pm am dm evs s b nrows rmf s' :
+  run (init_cst pm am dm) evs = Some s ->
+  step s (CT_FLUSHBAR b 1 nrows rmf false false) = Some s' -> cycle_err s = false ->
+  successors b (queue s) = [] -> pop_mode s = true ->
+  lookup b (released s') = Some (prio_of s b) /\ prio_of s' b = pop_prio s.
+Proof.
+  intros R H C Q M. split.
+  - exact (proj2 (proj2 (proj2 (flush_releases_all pm am dm evs s b nrows rmf false s' R H C)))).
+  - exact (proj1 (flush_pop_assign s b nrows rmf s' H C Q M)).
+Qed.
